@@ -416,4 +416,6 @@ end Blue.Props.C02
 #print axioms Blue.FlushCrash.crash_recover_A
 #print axioms Blue.StoreCrash.tx_block
 #print axioms Blue.FsyncCore.answered_true_is_durable
+#print axioms Blue.FsyncCore.run_answered_true_is_durable
+#print axioms Blue.FsyncCore.synced_before_failed_call_loses_durability
 #print axioms Blue.StoreCrash.trash_inputs_early_breaks_reopen
